@@ -108,7 +108,8 @@ func c07Extra(r *core.Run) {
 			return ok && ch.Dir() != types.SendOnly
 		}
 		n := 0
-		for _, f := range p.PkgFuncs(mrPkg) {
+		// incl. bound-method wrappers a variant has inlined the method into (the body then lives there)
+		for _, f := range pkgFuncsAll(p, mrPkg) {
 			sets, drains := core.Instrs(f, isSet), core.Instrs(f, isDrain)
 			if len(sets) == 0 || len(drains) == 0 {
 				continue
